@@ -559,6 +559,13 @@ def validate_case(body, kwargs, patches, n=2, seed=0, timeout_ms=30000, algebrai
                     for k, v in cur["m"].observed.items():
                         try:
                             if model is not None:
+                                if symnp._has_sym(v):
+                                    # only values fully determined by the (constant) inputs are comparable; outputs of contract stubs are free symbols
+                                    free = set()
+                                    for t_ in symnp.terms(np.asarray(v, dtype=object)):
+                                        free |= {n_ for n_ in symnp._symbols(t_) if not (n_.startswith("sqrt!") or n_.startswith("abs!") or n_.startswith("max!") or n_.startswith("min!"))}
+                                    if free:
+                                        continue
                                 cobs[k] = symnp.model_array(model, v) if symnp._has_sym(v) else v
                         except Exception:
                             pass
